@@ -150,7 +150,11 @@ def run_case(w, c):
             decimalfp.set_dflt_rounding_mode(ROUNDING[c['mode']])
             try:
                 r = w.mk_rate(c['r'])
-                if c.get('via') == 'inv':
+                if c.get('via') == 'identity':
+                    # the rate of a currency to itself, as a money converter reports it
+                    from quantity.money import MoneyConverter
+                    r = MoneyConverter(w.cur[c['r']['tc']]).get_rate(w.cur[c['r']['uc']], w.cur[c['r']['uc']])
+                elif c.get('via') == 'inv':
                     r = r.inverted()
                 elif c.get('via') == 'inv2':
                     r = r.inverted().inverted()
